@@ -8,7 +8,8 @@ use std::borrow::Borrow;
 #[cfg(not(rws_verif))]
 use std::net::{IpAddr, SocketAddr, TcpListener};
 #[cfg(rws_verif)]
-use crate::verif::net::{IpAddr, SocketAddr, TcpListener};
+#[allow(unused_imports)]
+use crate::verif::net::*;
 use std::str::FromStr;
 
 use crate::request::{METHOD, Request};
